@@ -209,6 +209,17 @@ def do_op(op, env):
 
         e = d.era
         return [e.name, d.year_of_era, any(e == getattr(Era, p) for p in ERA_PROPS), cal.get_absolute_year(d.year_of_era, e)], None  # fmt: skip
+    if k == "local":
+        zone = P.DateTimeZoneProviders.tzdb[op[1]]
+        ldt = P.LocalDate(op[2], op[3], op[4]).at(P.LocalTime.from_nanoseconds_since_midnight(op[5]))
+        m = zone.map_local(ldt)
+        z = ldt.in_zone_leniently(zone)
+        return [m.count, _ns(z.to_instant()), z.offset.seconds, z.time_of_day.nanosecond_of_day], None
+    if k == "conv":
+        a = P.CalendarSystem.for_id(op[1])
+        b = P.CalendarSystem.for_id(op[5])
+        d = P.LocalDate(op[2], op[3], op[4], a).with_calendar(b)
+        return [d.year, d.month, d.day, int(d.day_of_week)], None
     if k in ("zi", "zoff", "inzone", "ziu"):
         zone = P.DateTimeZoneProviders.tzdb[op[1]]
         inst = _inst(op[2])
@@ -379,6 +390,8 @@ def build_pool(master_seed, scale=1.0):
                     ops.append(["mlen", cal, y, rng.randrange(1, 13)])
                 if rng.random() < 0.3:
                     ops.append(["dera", cal, y, m, d])
+                if rng.random() < 0.25:
+                    ops.append(["conv", cal, y, m, d, rng.choice(list(CAL_RANGE))])
             # day-number -> date near the start of aliasing ISO years
             for y in ys[:3]:
                 if -9000 < y < 9000:
@@ -420,6 +433,12 @@ def build_pool(master_seed, scale=1.0):
                     ns = day * NS_DAY + rng.randrange(NS_DAY)
                     nm = rng.choice(names)
                     ops.append([rng.choice(["zi", "zi", "zoff", "inzone"]), nm, ns])
+                    if rng.random() < 0.25 and -719000 < day < 2900000:
+                        from props.c19 import civil_from_days
+
+                        yy, mm, dd = civil_from_days(day)
+                        if -9990 < yy < 9990:
+                            ops.append(["local", nm, yy, mm, dd, rng.randrange(NS_DAY)])
             groups.append(ops)
         pool["zone"][zid] = groups
     for zid in TZ_IDS:
@@ -668,7 +687,7 @@ def gen_run(seed):
         warm = rng.sample(["utc", "cal", "zones", "cultures", "iso"], rng.choice([1, 2, 4]))
     # loading the tz database under the tracer costs ~0.4M steps per thread: keep the cold-provider race to a minority of
     # runs, and to few threads
-    uses_tzdb = any(op[0] in ("zi", "zoff", "inzone", "tz", "tznone", "tzids", "prov") for p in progs for op in p)
+    uses_tzdb = any(op[0] in ("zi", "zoff", "inzone", "tz", "tznone", "tzids", "prov", "local") for p in progs for op in p)
     if uses_tzdb and (rng.random() < 0.85 or nthreads > 4):
         warm.append("prov")
     spec["prewarm"] = warm
@@ -694,14 +713,14 @@ def _prewarm(spec):
         P.DateTimeZone.utc  # noqa: B018
     if "cal" in w:
         for op in ops:
-            if op[0] in ("date", "ylen", "mlen", "fromdays", "dera", "calid", "eras", "erayear"):
+            if op[0] in ("date", "ylen", "mlen", "fromdays", "dera", "calid", "eras", "erayear", "conv"):
                 try:
                     P.CalendarSystem.for_id(op[1])
                 except Exception:  # noqa: BLE001
                     pass
     if "zones" in w:
         for op in ops:
-            if op[0] in ("zi", "zoff", "inzone", "tz"):
+            if op[0] in ("zi", "zoff", "inzone", "tz", "local"):
                 try:
                     P.DateTimeZoneProviders.tzdb[op[1]]
                 except Exception:  # noqa: BLE001
@@ -873,7 +892,7 @@ def _static_probes(spec):
     cultures = set()
     for p in spec["threads"]:
         for op in p:
-            if op[0] in ("date", "ylen", "mlen", "dera"):
+            if op[0] in ("date", "ylen", "mlen", "dera", "conv"):
                 years.setdefault((op[1] if not op[1].startswith("Hebrew") else "Hebrew", op[2] & 1023), set()).add(op[2])
             elif op[0] in ("zi", "zoff", "inzone"):
                 per = (op[2] // NS_DAY) >> 5
